@@ -3,51 +3,106 @@ C18 — the request builder follows its documented grammar.
 -/
 import Rscp.Lemmas.Builder
 namespace Rscp.Props.C18
-open Rscp Rscp.Model
+open Rscp Rscp.Model Rscp.Lemmas.Builder
 
 /-- the builder succeeds exactly on the lists the documented grammar derives, with that tree -/
 theorem build_matches_grammar (args : List Arg) (m : Msg) :
     createRequest args = .ok m ↔ ∃ rest, Spec.Builds args m rest := by
-  sorry
+  unfold createRequest
+  constructor
+  · intro h
+    cases hB : build (2 * args.length + 1) args with
+    | ok p =>
+      obtain ⟨m', r⟩ := p
+      rw [hB] at h
+      cases h
+      exact ⟨r, build_sound hB⟩
+    | err e => rw [hB] at h; cases h
+    | panic => rw [hB] at h; cases h
+  · rintro ⟨rest, h⟩
+    rw [build_complete h (by omega)]
 
 /-- no argument list makes the builder panic (nor run out of fuel) -/
 theorem build_total (args : List Arg) : createRequest args ≠ .panic := by
-  sorry
+  unfold createRequest
+  have h := (nopanic (2 * args.length + 1)).1 args (by omega) (by omega)
+  cases hB : build (2 * args.length + 1) args with
+  | ok p => intro h'; cases h'
+  | err e => intro h'; cases h'
+  | panic => exact absurd hB h
 
 /-- the documented errors, at the top level -/
 theorem err_empty : createRequest [] = .err .eos := by
-  sorry
+  rfl
 theorem err_not_a_tag_dt (d : Nat) (rest : List Arg) : createRequest (.dtConst d :: rest) = .err .validTag := by
-  sorry
+  rfl
 theorem err_not_a_tag_val (v : Val) (rest : List Arg) : createRequest (.val v :: rest) = .err .validTag := by
-  sorry
+  rfl
 theorem err_missing_value (t : Nat) (h0 : tagDataType t ≠ 0) (h14 : tagDataType t ≠ 14) :
     createRequest [.tag t] = .err .missingValue := by
-  sorry
+  unfold createRequest
+  rw [show 2 * [Arg.tag t].length + 1 = 2 + 1 from rfl, build_leaf_nil _ t h0 h14]
 theorem err_tag_as_value (t t' : Nat) (rest : List Arg) (h0 : tagDataType t ≠ 0) (h14 : tagDataType t ≠ 14) :
     createRequest (.tag t :: .tag t' :: rest) = .err .typeMismatch := by
-  sorry
+  unfold createRequest
+  rw [build_leaf_tag _ t t' rest h0 h14]
 theorem err_datatype_as_value (t d : Nat) (rest : List Arg) (h0 : tagDataType t ≠ 0) (h14 : tagDataType t ≠ 14) :
     createRequest (.tag t :: .dtConst d :: rest) = .err .typeMismatch := by
-  sorry
+  unfold createRequest
+  rw [build_leaf_dt _ t d rest h0 h14]
 
 /-- every failure is one of the documented errors -/
 theorem errors_are_documented (args : List Arg) (e : ErrClass) (h : createRequest args = .err e) :
     e = .eos ∨ e = .validTag ∨ e = .missingValue ∨ e = .typeMismatch := by
-  sorry
+  unfold createRequest at h
+  cases hB : build (2 * args.length + 1) args with
+  | ok p => rw [hB] at h; cases h
+  | err e' =>
+    rw [hB] at h
+    cases h
+    exact (errors _).1 args _ hB
+  | panic => rw [hB] at h; cases h
 
 /-- the multi-request form is the single form applied to each list in turn -/
 theorem multi_is_map (lists : List (List Arg)) (h : lists ≠ []) (ms : List Msg) :
     createRequests lists = .ok ms ↔ lists.map createRequest = ms.map .ok := by
-  sorry
+  unfold createRequests
+  cases lists with
+  | nil => exact absurd rfl h
+  | cons l ls => exact go_ok (l :: ls) ms
 theorem multi_no_arguments : createRequests [] = .err .noArguments := by
-  sorry
+  rfl
 theorem multi_first_error (lists : List (List Arg)) (e : ErrClass) (h : createRequests lists = .err e) (hne : lists ≠ []) :
     ∃ pre l post, lists = pre ++ l :: post ∧ createRequest l = .err e ∧ ∀ x ∈ pre, ∃ m, createRequest x = .ok m := by
-  sorry
+  unfold createRequests at h
+  cases lists with
+  | nil => exact absurd rfl hne
+  | cons l ls => exact go_err (l :: ls) e h
 
 -- non-vacuity: the documentation's third example (BAT_REQ_DATA, BAT_INDEX, uint16(0), BAT_REQ_DEVICE_STATE, …)
 example : ∃ m, createRequest [.tag 50593792, .tag 50593793, .val (.num .u16 0), .tag 50724864] = .ok m := by
-  sorry
+  have h1 : tagDataType 50593792 = 14 := by decide +kernel
+  have h2 : tagDataType 50593793 ≠ 0 ∧ tagDataType 50593793 ≠ 14 := by decide +kernel
+  have h3 : tagDataType 50724864 = 0 := by decide +kernel
+  have hb : Spec.Builds [.tag 50593792, .tag 50593793, .val (.num .u16 0), .tag 50724864]
+      (.mk 50593792 14 (.msgs [.mk 50593793 (tagDataType 50593793) (.num .u16 0), .mk 50724864 0 .nil])) [] :=
+    Spec.Builds.container _ _ _ h1
+      (Spec.BuildsAll.cons _ _ _ _ (Spec.Builds.leaf _ _ _ h2.1 h2.2)
+        (Spec.BuildsAll.cons _ _ _ _ (Spec.Builds.none _ _ h3) Spec.BuildsAll.nil))
+  exact ⟨_, (build_matches_grammar _ _).2 ⟨_, hb⟩⟩
 
 end Rscp.Props.C18
+
+#print axioms Rscp.Props.C18.build_matches_grammar
+#print axioms Rscp.Props.C18.build_total
+#print axioms Rscp.Props.C18.err_empty
+#print axioms Rscp.Props.C18.err_not_a_tag_dt
+#print axioms Rscp.Props.C18.err_not_a_tag_val
+#print axioms Rscp.Props.C18.err_missing_value
+#print axioms Rscp.Props.C18.err_tag_as_value
+#print axioms Rscp.Props.C18.err_datatype_as_value
+#print axioms Rscp.Props.C18.errors_are_documented
+#print axioms Rscp.Props.C18.multi_is_map
+#print axioms Rscp.Props.C18.multi_no_arguments
+#print axioms Rscp.Props.C18.multi_first_error
+
